@@ -166,6 +166,64 @@ def h_history(eng, which, first, second):
         eng.prove(Eq(a[2], b[2]), f"history:{first}>{second}:factor")
 
 
+def h_late_prefix(eng, which, form):
+    """a prefix that arrives through define()/load_definitions() after the registry has been used:
+    every spelling is then read as by a registry that had the line from the start"""
+    ureg, pv, sv = _build(eng, which)
+    twin_lines = []
+    spec = COLLIDING[which]
+    L = eng.lit
+    pn, x = eng.real("pn"), eng.real("x")
+    eng.assume(pn > 0)
+    # (a name, a symbol and an alias that none of the registry's own spellings uses)
+    line = f"sn- = {L(pn)} = n- = nn-" if which == "A" else f"nk- = {L(pn)} = sk- = nn-"
+    pre_spellings = ("sn", "n", "nn") if which == "A" else ("nk", "sk", "nn")
+    lines = ["b = [dim]"]
+    for name, sym, aliases in spec["prefixes"]:
+        lines.append(" = ".join([f"{name}-", L(pv[name]), (sym + "-") if sym else "_"] + [a + "-" for a in aliases]))
+    lines.append(line)
+    for name, sym, aliases in spec["units"]:
+        lines.append(" = ".join([name, f"{L(sv[name])} * b", sym or "_"] + aliases))
+    twin = pint.UnitRegistry(lines, non_int_type=eng.ntype, on_redefinition="raise")
+    # history: exact, prefixed and undefined look-ups, a conversion
+    first_unit = spec["units"][0][0]
+    for s_ in (first_unit, spec["prefixes"][0][0] + first_unit, pre_spellings[0] + first_unit, "b"):
+        try:
+            ureg.get_name(s_)
+            ureg.Quantity(x, s_).to_root_units()
+        except UndefinedUnitError:
+            pass
+    (pre_spellings[1] + first_unit) in ureg
+    if form == "define":
+        ureg.define(line)
+    else:
+        ureg.load_definitions([line])
+
+    def ask(reg, s_):
+        try:
+            return reg.get_name(s_), reg.Quantity(x, s_).to_root_units().magnitude, s_ in reg
+        except UndefinedUnitError:
+            return None
+
+    stems = []
+    for name, sym, aliases in spec["units"]:
+        stems += [name] + ([sym] if sym else []) + aliases
+    for ps in pre_spellings:
+        for st in stems + ["b"]:
+            for suffix in ("", "s"):
+                text = ps + st + suffix
+                a, b = ask(ureg, text), ask(twin, text)
+                eng.prove((a is None) == (b is None), f"late-prefix:{form}:{text}:defined-as-in-a-registry-that-had-it-from-the-start")
+                if a is not None and b is not None:
+                    eng.prove(a[0] == b[0] and a[2] == b[2], f"late-prefix:{form}:{text}:name")
+                    eng.prove(Eq(a[1], b[1]), f"late-prefix:{form}:{text}:factor")
+    # absolute: the new prefix in front of the first unit's canonical name
+    a = ask(ureg, pre_spellings[0] + first_unit)
+    eng.prove(a is not None and a[0] == pre_spellings[0] + first_unit, f"late-prefix:{form}:canonical-reading")
+    if a is not None:
+        eng.prove(Eq(a[1], x * pn * sv[first_unit]), f"late-prefix:{form}:canonical-factor")
+
+
 def _build_twin(eng, which, pv, sv):
     spec = COLLIDING[which]
     L = eng.lit
@@ -463,6 +521,9 @@ def cases(tier, seed):
     for which in ("A", "B"):
         for a, b in pairs:
             out.append(Case("H08.b", f"{which}:{a}>{b}", M, "h_history", {"which": which, "first": a, "second": b}, opts=opts, validate=0))
+    for which in ("A", "B"):
+        for form in ("define", "load_definitions"):
+            out.append(Case("H08.b", f"late-prefix:{which}:{form}", M, "h_late_prefix", {"which": which, "form": form}, opts=opts, validate=1))
     d = refdefs.default()
     spell = sorted(d.spellings)
     cross = []
